@@ -790,3 +790,76 @@ func checkMergeResultsDrained(c *Ctx, rule string) {
 	}
 	c.Check(n >= 3, rule, "expected:merge-result-consumers", "module", fmt.Sprintf("%d consumers of the cache's merge results", n), fmt.Sprintf("only %d consumers found (reference 4)", n))
 }
+
+// R11.12: a command that has staged an operation commits it before it ends, whatever it then reports.
+// Staging through the cache already refreshes the excerpt, the index and the cache file; a process that
+// exits between staging and Commit leaves them describing an operation that git does not hold.
+func checkCommandsCommitWhatTheyStage(c *Ctx, rule string) {
+	w := c.W
+	c.Doc(rule, "in package commands: after a successful call of an editing method of cache.BugCache (AddComment…, ChangeLabels, SetTitle, Open, Close, EditComment…, SetMetadata) no return — with or without error — is reachable that does not pass Commit / CommitAsNeeded of a cache entity")
+	staging := map[string]bool{"AddComment": true, "AddCommentWithFiles": true, "AddCommentRaw": true, "ChangeLabels": true, "ChangeLabelsRaw": true, "ForceChangeLabels": true, "ForceChangeLabelsRaw": true,
+		"SetTitle": true, "SetTitleRaw": true, "Open": true, "OpenRaw": true, "Close": true, "CloseRaw": true, "EditComment": true, "EditCommentRaw": true, "EditCreateComment": true, "EditCreateCommentRaw": true, "SetMetadata": true, "SetMetadataRaw": true}
+	isCommit := func(i ssa.Instruction) bool {
+		ci, ok := i.(ssa.CallInstruction)
+		if !ok {
+			return false
+		}
+		n, _ := callName(ci.Common())
+		return strings.HasPrefix(n, "cache.") && (strings.HasSuffix(n, ".Commit") || strings.HasSuffix(n, ".CommitAsNeeded"))
+	}
+	n := 0
+	for _, f := range w.ModFns {
+		if isInstance(f) || w.isTestHelper(f) || !strings.HasPrefix(fnPkgPath(f), modPath+"/commands") || len(f.Blocks) == 0 {
+			continue
+		}
+		for _, cl := range Calls(f) {
+			if !strings.HasPrefix(cl.Name, "cache.BugCache.") {
+				continue
+			}
+			_, m := lastDot(cl.Name)
+			if !staging[m] || cl.Value() == nil {
+				continue
+			}
+			n++
+			c.Sites++
+			c.seeFn(funcName(f))
+			bad := false
+			var p []*ssa.BasicBlock
+			sbs := successBlocks(cl.Value())
+			if len(sbs) == 0 {
+				// the error is tested later (after printing the per-label results): every path from the call
+				bad, p, _ = pathAvoiding(f, cl.Instr, isAnyReturn, isCommit)
+				// paths on which the staging call itself failed are fine: they return its error; keep only returns not fed by that error
+				if bad {
+					bad = false
+					for _, r := range Returns(f) {
+						reach, pp, _ := pathAvoiding(f, cl.Instr, func(i ssa.Instruction) bool { return i == ssa.Instruction(r) }, isCommit)
+						if !reach {
+							continue
+						}
+						fromCall := false
+						for _, rv := range r.Results {
+							for _, o := range origins(rv) {
+								if o.Val == cl.Value() {
+									fromCall = true
+								}
+							}
+						}
+						if !fromCall {
+							bad, p = true, pp
+						}
+					}
+				}
+			} else {
+				for _, sb := range sbs {
+					if found, pp, _ := pathSearch(f, nil, sb, isAnyReturn, isCommit, false); found {
+						bad, p = true, pp
+					}
+				}
+			}
+			c.Check(!bad, rule, funcName(f)+":"+m+":committed-before-returning", w.InstrPos(cl.Instr), "every exit after the staging passes Commit",
+				"after "+m+" staged an operation the command can return without committing it ("+blocksString(w, p)+"): the excerpt, the index and the cache file written at staging time describe an operation that is not in git — every later session lists a state a rebuilt cache does not have")
+		}
+	}
+	c.Check(n >= 8, rule, "expected:staging-calls-in-commands", "commands", fmt.Sprintf("%d staging calls", n), fmt.Sprintf("only %d staging calls found in package commands (reference ≥ 10)", n))
+}
